@@ -70,7 +70,7 @@ func getGlobalConsumers(pass *analysishelper.EnhancedPass, valspec *ast.ValueSpe
 
 	for i, name := range valspec.Names {
 		// Types that are not nilable are eliminated here
-		if !asthelper.IsEmptyExpr(name) && !typeshelper.TypeBarsNilness(pass.TypesInfo.TypeOf(name)) && !hasGlobalVarAssignInInitFunc(valspec, initFuncDecls) {
+		if !asthelper.IsEmptyExpr(name) && !typeshelper.TypeBarsNilness(pass.TypesInfo.TypeOf(name)) && !hasGlobalVarAssignInInitFunc(pass, valspec, initFuncDecls) {
 			v := pass.TypesInfo.ObjectOf(name).(*types.Var)
 			consumers[i] = &annotation.ConsumeTrigger{
 				Annotation: &annotation.GlobalVarAssign{
@@ -90,21 +90,27 @@ func getGlobalConsumers(pass *analysishelper.EnhancedPass, valspec *ast.ValueSpe
 // Checks if all the global variables represented by spec are assigned values within the init function.
 // It returns true if all variables are assigned, false otherwise.
 // If initFuncDecl is nil, it returns false.
-func hasGlobalVarAssignInInitFunc(spec *ast.ValueSpec, initFuncDecls []*ast.FuncDecl) bool {
+func hasGlobalVarAssignInInitFunc(pass *analysishelper.EnhancedPass, spec *ast.ValueSpec, initFuncDecls []*ast.FuncDecl) bool {
 	if len(initFuncDecls) == 0 {
 		return false
 	}
-	assignedVars := make(map[string]bool)
+	// The variables are matched by their objects rather than by their names, since a local variable
+	// of an init function (e.g., `g := ...`) may shadow the global variable of the same name, and an
+	// assignment to such a local variable does not initialize the global variable.
+	assignedVars := make(map[types.Object]bool)
 	for _, name := range spec.Names {
-		assignedVars[name.Name] = false
+		if obj := pass.TypesInfo.ObjectOf(name); obj != nil {
+			assignedVars[obj] = false
+		}
 	}
 	for _, initFuncDecl := range initFuncDecls {
 		ast.Inspect(initFuncDecl.Body, func(node ast.Node) bool {
 			if assign, ok := node.(*ast.AssignStmt); ok {
 				for _, lhs := range assign.Lhs {
 					if ident, ok := lhs.(*ast.Ident); ok {
-						if _, exists := assignedVars[ident.Name]; exists {
-							assignedVars[ident.Name] = true
+						obj := pass.TypesInfo.ObjectOf(ident)
+						if _, exists := assignedVars[obj]; exists {
+							assignedVars[obj] = true
 						}
 					}
 				}
